@@ -5,9 +5,10 @@
 int verif_exc;
 unsigned g_ratio_calls; uint64_t g_ratio_num, g_ratio_den; double g_ratio_val;
 uint64_t g_dur_lo, g_dur_hi;
+c18_text g_c18_out;
 
 void h_format_duration(void) {
-  c18_text* ret;
+  c18_text* ret = &g_c18_out;
   uint64_t in_usecs;
   int8_t in_precision;
   verif_exc = 0; g_ratio_calls = 0;
@@ -16,12 +17,10 @@ void h_format_duration(void) {
   VERIF_REACH();
 }
 
-/* lemma about the IEEE-754 division in c18_ratio (stubs/C18_text.h): its contract is enforced on its body */
-void h_ratio(void) {
+/* lemma about the IEEE-754 division c18_fdiv (stubs/C18_text.h): its contract is enforced on its body */
+void h_fdiv(void) {
   uint64_t in_num, in_den;
-  unsigned in_calls;
-  g_ratio_calls = in_calls;
-  c18_ratio(in_num, in_den);
+  c18_fdiv(in_num, in_den);
   VERIF_REACH();
 }
 
@@ -34,5 +33,10 @@ void h_lemma_nested_div(void) {
 void h_lemma_dhm(void) {
   uint64_t in_u;
   c18_lemma_dhm(in_u);
+  VERIF_REACH();
+}
+void h_lemma_cong24(void) {
+  uint64_t in_x, in_y;
+  c18_lemma_cong24(in_x, in_y);
   VERIF_REACH();
 }
